@@ -310,8 +310,18 @@ func emit(out *bufio.Writer, m caseMsg) {
 	out.Flush()
 }
 
+// silenceStdout: the worker protocol keeps the real stdout; whatever the library
+// under test prints (debug output) goes to /dev/null.
+func silenceStdout() *os.File {
+	real := os.Stdout
+	if dn, err := os.OpenFile(os.DevNull, os.O_WRONLY, 0); err == nil {
+		os.Stdout = dn
+	}
+	return real
+}
+
 func workerMain(w World, cfg Config) int {
-	out := bufio.NewWriterSize(os.Stdout, 1<<16)
+	out := bufio.NewWriterSize(silenceStdout(), 1<<16)
 	st := NewStats()
 	if *fEvents != "" {
 		f, err := os.Create(*fEvents)
@@ -408,8 +418,9 @@ func oneMain(w World, cfg Config) int {
 	} else {
 		t = tape.New(*fSeed)
 	}
+	real := silenceStdout()
 	v := w.RunCase(t, nil)
-	out := bufio.NewWriter(os.Stdout)
+	out := bufio.NewWriter(real)
 	emit(out, caseMsg{T: "one", Viol: v, Tape: t.Recorded()})
 	return 0
 }
